@@ -69,6 +69,19 @@ def mutant_of(case):
     return None
 
 
+def undefined_jump_targets(text):
+    """label-like targets of jumps / branches of an IC10 text that no line defines"""
+    lines = [ic10load.tokenize(l) for l in text.split("\n")]
+    labels = {t[0][:-1] for t in lines if len(t) == 1 and t[0].endswith(":")}
+    out = set()
+    for t in lines:
+        if len(t) >= 2 and (t[0] in ("j", "jal") or (t[0].startswith("b") and not t[0].startswith("br"))):
+            tgt = t[-1]
+            if re.fullmatch(r"[A-Za-z_][\w.]*", tgt) and tgt not in labels and tgt not in ("ra", "sp") and not re.fullmatch(r"r\d+", tgt):
+                out.add(tgt)
+    return sorted(out)
+
+
 def run_equiv_check(pid, tier, t0, items, level, rule, assumptions, extra_cov=None, expect_mutant=True,
                     violation_filter=None, batches=8, outer=None):
     """items: list of {name, tag, case, sample}.  Runs Equiv2, reports, writes evidence."""
@@ -98,13 +111,19 @@ def run_equiv_check(pid, tier, t0, items, level, rule, assumptions, extra_cov=No
         bad = [v for v in vs if equiv.is_violation(v)]
         if violation_filter:
             bad = [v for v in bad if violation_filter(v)]
+        # the candidate text has an operand the loader cannot resolve where the reference text ran fine: inconclusive in general,
+        # but a jump or branch to a label that is defined nowhere is a fault of the text itself
+        if "INCONCLUSIVE:B:UNRESOLVED_OPERAND" in vs and it.get("b_text"):
+            ud = undefined_jump_targets(it["b_text"])
+            if ud:
+                bad.append("JUMP_TO_UNDEFINED_LABEL:" + ",".join(ud))
         for v in vs:
             if v.startswith("INCONCLUSIVE"):
                 inconclusive[v] = inconclusive.get(v, 0) + 1
         if not [v for v in vs if v.startswith("INCONCLUSIVE")]:
             complete += 1
         for v in sorted(bad):
-            clause = v.split(":")[-1] if v.startswith(("MON_", "FAULT_")) else v
+            clause = v.split(":")[-1] if v.startswith(("MON_", "FAULT_")) else v.split(":")[0] if v.startswith("JUMP_TO_UNDEFINED") else v
             new = rep.violation([it["name"], it["name"] + "@" + it["tag"]] + it.get("keys", []), clause,
                                 {"property": pid, "case": it["name"], "variant": it["tag"], "verdict": v,
                                  "source": it.get("src"), "a_text": it.get("a_text"), "b_text": it.get("b_text"),
@@ -864,6 +883,40 @@ def modules_family():
     merged9 = (H + "def mn_inner(xa):\n    d3.Setting = xa\n    return xa + 1\ndef mn_outer(xa):\n    ta = mn_inner(xa)\n    return mn_inner(ta) * 2\n"
                "while True:\n    d1.Setting = mn_outer(d0.Setting) + mn_outer(1)\n    yield_()\n")
     out.append(("md_nested_calls_in_lib", {"": main9, "mn": lib_n}, merged9))
+    # an early return in a library function: alone, and next to a main-file function of the same name that itself calls (its
+    # epilogue restores ra: a jump that lands there instead of on the library function's own end label goes wrong)
+    lib_e = H + "def clamp(xa):\n    if xa > 2:\n        return 2\n    if xa < 0:\n        return 0\n    d3.Setting = xa\n    return xa\n"
+    main10 = H + "from library import lim\nwhile True:\n    d1.Setting = lim.clamp(d0.Setting) + lim.clamp(1)\n    yield_()\n"
+    merged10 = H + "def lim_clamp(xa):\n    if xa > 2:\n        return 2\n    if xa < 0:\n        return 0\n    d3.Setting = xa\n    return xa\nwhile True:\n    d1.Setting = lim_clamp(d0.Setting) + lim_clamp(1)\n    yield_()\n"
+    out.append(("md_early_only_lib", {"": main10, "lim": lib_e}, merged10))
+    main11 = (H + "from library import lim\ndef helper(xa):\n    d4.Setting = xa\n    return xa + 1\ndef clamp(xa):\n    if xa > 5:\n        return helper(5)\n    ta = helper(xa)\n    return ta + helper(1)\n"
+              "while True:\n    d1.Setting = lim.clamp(d0.Setting) + lim.clamp(1)\n    d2.Setting = clamp(d0.Setting) + clamp(7)\n    yield_()\n")
+    merged11 = (H + "def lim_clamp(xa):\n    if xa > 2:\n        return 2\n    if xa < 0:\n        return 0\n    d3.Setting = xa\n    return xa\n"
+                "def helper(xa):\n    d4.Setting = xa\n    return xa + 1\ndef clamp(xa):\n    if xa > 5:\n        return helper(5)\n    ta = helper(xa)\n    return ta + helper(1)\n"
+                "while True:\n    d1.Setting = lim_clamp(d0.Setting) + lim_clamp(1)\n    d2.Setting = clamp(d0.Setting) + clamp(7)\n    yield_()\n")
+    out.append(("md_early_same_name_calling", {"": main11, "lim": lib_e}, merged11))
+    # a library's self-test block assigns its globals: dead when imported, it must not influence what the live code sees
+    lib_t = (H + "target = 50\nstep = 3\ndef aim(xa):\n    return xa + target * step\nif __name__ == \"__main__\":\n    target = 20\n    step = 1\n    d5.Setting = aim(1)\n")
+    main12 = H + "from library import tg\nwhile True:\n    d1.Setting = tg.aim(d0.Setting) + tg.aim(2)\n    yield_()\n"
+    merged12 = H + "tg_target = 50\ntg_step = 3\ndef tg_aim(xa):\n    return xa + tg_target * tg_step\nwhile True:\n    d1.Setting = tg_aim(d0.Setting) + tg_aim(2)\n    yield_()\n"
+    out.append(("md_selftest_assigns_globals", {"": main12, "tg": lib_t}, merged12))
+    lib_u = (H + "target = 50\ngain = 2\ndef update(xa):\n    db.Setting = (target - xa) * gain\nif __name__ == \"__main__\":\n    target = 20\n    gain = 3\n"
+             "    while True:\n        update(1)\n        yield_()\n")
+    main13 = H + "from library import ctl as cz\nna = 0\nwhile True:\n    yield_()\n    na = na + 1\n    cz.update(na)\n    cz.update(na + 10)\n"
+    merged13 = H + "ctl_target = 50\nctl_gain = 2\ndef ctl_update(xa):\n    db.Setting = (ctl_target - xa) * ctl_gain\nna = 0\nwhile True:\n    yield_()\n    na = na + 1\n    ctl_update(na)\n    ctl_update(na + 10)\n"
+    out.append(("md_selftest_loop", {"": main13, "ctl": lib_u}, merged13))
+    # a library much longer than the main file (the comment options look source lines up by number)
+    lib_l = H + "def fa(xa):\n    d1.Setting = xa\n    d2.Setting = xa + 1\n    d3.Setting = xa + 2\n    d1.Setting = xa + 3\n    d2.Setting = xa + 4\n    return xa + 1\n"
+    main14 = H + "from library import ll\nd0.Setting = ll.fa(d0.Setting) + ll.fa(2)\n"
+    merged14 = H + "def ll_fa(xa):\n    d1.Setting = xa\n    d2.Setting = xa + 1\n    d3.Setting = xa + 2\n    d1.Setting = xa + 3\n    d2.Setting = xa + 4\n    return xa + 1\nd0.Setting = ll_fa(d0.Setting) + ll_fa(2)\n"
+    out.append(("md_long_library", {"": main14, "ll": lib_l}, merged14))
+    # two libraries that both name a device object `sensor` and ask for an IC10 alias of that name
+    lib_p = H + "sensor = GasSensor(d0, alias=True)\ndef temp():\n    return sensor.Temperature\n"
+    lib_q = H + "sensor = GasSensor(d1, alias=True)\ndef pres():\n    return sensor.Pressure\n"
+    main15 = H + "from library import lp\nfrom library import lq\nwhile True:\n    d2.Setting = lp.temp() + lq.pres()\n    d3.Setting = lp.temp()\n    yield_()\n"
+    merged15 = (H + "lp_sensor = GasSensor(d0, alias=True)\nlq_sensor = GasSensor(d1, alias=True)\ndef lp_temp():\n    return lp_sensor.Temperature\ndef lq_pres():\n    return lq_sensor.Pressure\n"
+                "while True:\n    d2.Setting = lp_temp() + lq_pres()\n    d3.Setting = lp_temp()\n    yield_()\n")
+    out.append(("md_alias_collision", {"": main15, "lp": lib_p, "lq": lib_q}, merged15))
     return out
 
 
@@ -892,6 +945,20 @@ def check_c13(tier, t0):
             meta.append((n, split, merged, v))
     res = cw.compile_many(jobs)
     rep = Reporter("C13")
+    # the comment options must not matter for a several-file program either: it compiles, and to the same instructions
+    cvec = cw.opts(original_code_as_comment=True, generated_comments=True)
+    cfam = [(n, split) for n, split, merged in fam if n.startswith("md_")]
+    cres = cw.compile_many([{"src": split, "options": v} for n, split in cfam for v in (cw.REF, cvec)])
+    # instructions only: an unused label survives when a comment follows it on its line (harmless, and C05's business)
+    strip_comments = lambda code: [t for t in (ic10load.tokenize(l) for l in code.split("\n")) if t and not (len(t) == 1 and t[0].endswith(":"))]
+    for k, (n, split) in enumerate(cfam):
+        ca, cb = code_of(cres[2 * k]), code_of(cres[2 * k + 1])
+        if ca is not None and cb is None:
+            rep.violation([n, n + "@ov"], "SPLIT_DOES_NOT_COMPILE", {"property": "C13", "case": n, "variant": "ov", "modules": split, "result": cres[2 * k + 1]["result"]},
+                          "case=%s variant=ov (comment options) split program rejected: %s" % (n, str((cres[2 * k + 1]["result"] or {}).get("error", {}).get("description"))[:120]))
+        elif ca is not None and strip_comments(ca) != strip_comments(cb):
+            rep.violation([n, n + "@ov"], "COMMENT_OPTIONS_CHANGE_INSTRUCTIONS", {"property": "C13", "case": n, "modules": split, "plain": ca, "commented": cb},
+                          "case=%s the comment options change the instructions of a several-file program" % n)
     items = []
     for k, (n, split, merged, v) in enumerate(meta):
         rs, rm = res[2 * k], res[2 * k + 1]
